@@ -1,8 +1,5 @@
 #include "vp.h"
-#include <tins/udp.h>
-#include <tins/rawpdu.h>
-#include <tins/dot1q.h>
+#include <tins/radiotap.h>
 using namespace Tins;
-H(h_dbg_1) { uint8_t pl[2] = {1,2}; UDP u(1, 2); u.inner_pdu(new RawPDU(pl, 2)); vp_assert(u.inner_pdu()->parent_pdu() == &u, "p"); vp_witness(); }
-H(h_dbg_2) { uint8_t pl[2] = {1,2}; UDP u(1, 2); u.inner_pdu(new RawPDU(pl, 2)); PDU* c = u.clone(); vp_assert(c->inner_pdu() != 0 && c->inner_pdu()->parent_pdu() == c, "p"); delete c; vp_witness(); }
-H(h_dbg_3) { uint8_t pl[2] = {1,2}; UDP u(1, 2); u.inner_pdu(RawPDU(pl, 2)); vp_assert(u.inner_pdu()->parent_pdu() == &u, "p"); vp_witness(); }
+H(h_dbg_rt0) { RadioTap rt; vp_assert(rt.header_size() >= 8, "hs"); vp_witness(); }
+H(h_dbg_rt1) { RadioTap rt; uint8_t v = vp_u8(); rt.rate(v); vp_assert(rt.rate() == v, "rate"); vp_witness(); }
